@@ -308,7 +308,11 @@ func applyCorruption(c *Case, k corruption, r *Rand) *Case {
 			return nil
 		}
 		old := a[i+1]
-		nn := strings.TrimSuffix(strings.TrimSuffix(strings.TrimSuffix(strings.TrimSuffix(old, ".gb"), ".gff"), ".fasta"), ".csv") + r.Pick(".txt", ".gbk", ".gff3", ".fas", "")
+		base := old
+		if k := strings.LastIndexByte(old, '.'); k > 0 {
+			base = old[:k]
+		}
+		nn := base + r.Pick(".txt", ".gbk", ".gff3", ".fas", "")
 		a[i+1] = nn
 		out.Files[nn] = out.Files[old]
 		out.Opts.Args = a
